@@ -41,6 +41,20 @@ CHECKS['C08'] = dict(
          'thresholds, each CvtToFuzzy variant == clamp(Normalize counterpart on [-1,1]) run side by side, and order preservation of monotone mappings.',
     note='Trusted: z3 NRA, symnp validated per path, mpv/oracle.py; NormalizeZScore default thresholds not asserted (docs and code disagree); exact reals.',
     ref='DESIGN.md §2 C08')
+CHECKS['C05'] = dict(
+    technique='symbolic execution of every data command on rank 1-3 shapes; shape facts per path and sigma-equivariance (transpositions, reshapes) as relational z3 queries over two executions',
+    text='Bounded symbolic model checking: for every data command the result shape equals the input shape on shapes of rank 1-3 incl. length-1 axes, and running the command on all inputs '
+         'rearranged by the same adjacent transposition of cells, or reshaped vector<->grid, is proved to rearrange the result identically (masks and non-missing values), '
+         'which makes data-dependent statistics (min/max/mean/std, mean-to-mid points) part of the solver query.',
+    note='Trusted: z3, symnp index bookkeeping delegated to real numpy on buffer positions (validated per path); permutations via adjacent transpositions + composition argument.',
+    ref='DESIGN.md §2 C05')
+CHECKS['C09'] = dict(
+    technique='one inductive step over an arbitrary symbolic producer state: real Command.run of each consumer on shared-buffer symbolic arrays; before/after equality of the producers decided by z3',
+    text='Bounded symbolic model checking of one consumer step from an arbitrary producer state (masked / nomask / plain arrays with symbolic cells and masks): after the real Command.run of any '
+         'data command (1-3 inputs, single-input n-ary forms, same producer twice) the producers keep type, shape, element type, mask and non-missing values. Buffer sharing in the numpy stand-in '
+         'makes views, reduce() returning its only element and in-place operators visible; sequences of consumers follow by induction.',
+    note='Trusted: z3, symnp aliasing model (views share cell buffers; validated per path incl. post-state of the inputs on real numpy); A-pre fuzzy range.',
+    ref='DESIGN.md §2 C09')
 NOT_YET = {}
 ALL = ['C%02d' % i for i in range(1, 21)]
 
